@@ -578,7 +578,7 @@ func (t *Table) Put(input *types.PutItemInput) (map[string]*types.Item, error) {
 		}, t.getItem(key))
 
 		if !matched {
-			return item, types.NewError("ConditionalCheckFailedException", ErrConditionalRequestFailed.Error(), nil)
+			return item, conditionalCheckError(input.ReturnValuesOnConditionCheckFailure, t.getItem(key))
 		}
 	}
 
@@ -731,7 +731,7 @@ func (t *Table) Delete(input *types.DeleteItemInput) (map[string]*types.Item, er
 		}, t.getItem(key))
 
 		if !matched {
-			return nil, types.NewError("ConditionalCheckFailedException", ErrConditionalRequestFailed.Error(), nil)
+			return nil, conditionalCheckError(input.ReturnValuesOnConditionCheckFailure, t.getItem(key))
 		}
 	}
 
@@ -819,4 +819,15 @@ func handleConditionalCheckError(input *types.UpdateItemInput, checkErr *types.C
 	if input.ReturnValuesOnConditionCheckFailure != nil && *input.ReturnValuesOnConditionCheckFailure == "ALL_OLD" {
 		checkErr.Item = item
 	}
+}
+
+// conditionalCheckError is the failure of a conditional write, it carries the stored item when the request asks for it
+func conditionalCheckError(returnValues *string, item map[string]*types.Item) error {
+	checkErr := &types.ConditionalCheckFailedException{MessageText: ErrConditionalRequestFailed.Error()}
+
+	if types.StringValue(returnValues) == "ALL_OLD" {
+		checkErr.Item = copyItem(item)
+	}
+
+	return checkErr
 }
